@@ -1,10 +1,12 @@
 import Driver.Lb
 import Driver.LbSpec
 import Driver.Adapter
+import Driver.Own
 import Netpoll.Gen.Consts
 def main (args : List String) : IO UInt32 := do
   match args with
   | ["lb"] => Driver.Lb.main; return 0
   | ["lbspec", ops, impl] => Driver.LbSpec.main ops impl; return 0
+  | ["own"] => Driver.Own.main; return 0
   | ["adapter"] => Driver.Adapter.main Netpoll.Gen.c_block4k; return 0
   | _ => IO.eprintln "usage: npdriver lb | lbspec <ops> <impl> | adapter"; return 2
